@@ -12,6 +12,7 @@ From FGV Require Import Base.Util Base.Bond Base.NX Base.NXFacts Model.Permute M
                         Proofs.SortFacts Proofs.KeyOrder Proofs.FGTreeProofs Proofs.FGCheckProofs Proofs.FGDefaultTree Proofs.FGDefaultFacts
                         Spec.QuerySpec Proofs.EmbeddingOrder Proofs.SubgroupSem Proofs.EmbSearchProofs Proofs.KeyStrict Proofs.ConcreteHasse Proofs.RefBridge Proofs.QueryClosed.
 From FGV Require Import Proofs.GenParsed.
+From FGV Require Import Proofs.MatchTotal Proofs.ConcreteHasseTotal.
 
 (** * Abstract part: any item type, is_subgroup abstracted to [sub] with Boolean value [subb]
       on the list, [kltb a b] = "order_id a < order_id b".
@@ -279,6 +280,59 @@ Proof. repeat split; vm_compute; reflexivity. Qed.
 Theorem C07_default_graphs_parsed : default_graphs_parsedb = true.
 Proof. exact default_graphs_parsed. Qed.
 
+(** * Totality: is_subgroup on parsed configurations, and the concrete tree theorem without the
+      "does not raise" premise (Proofs/MatchTotal.v: the matcher returns Ok on well-formed symbol-carrying
+      graphs; Proofs/ConcreteHasseTotal.v) *)
+
+(* every mapper: on parsed configurations is_subgroup returns a Boolean or raises the "matches in both
+   directions" AssertionError -- no KeyError / IndexError, no out-of-fuel value *)
+Theorem C07_is_subgroup_errors : forall mp a b,
+  cfg_parsed a -> cfg_parsed b -> (forall ap, In ap (fg_anti a) -> has_syms ap) ->
+  (exists t, is_subgroup mp a b = Good t) \/ is_subgroup mp a b = Bad AssertErr.
+Proof. exact is_subgroup_good_or_assert. Qed.
+
+(* ... and it raises it exactly when the two patterns embed into each other *)
+Theorem C07_is_subgroup_assert_iff : forall w ic a b,
+  cfg_parsed a -> cfg_parsed b -> (forall ap, In ap (fg_anti a) -> has_syms ap) ->
+  (is_subgroup (mk_mapper w ic []) a b = Bad AssertErr <->
+   Embeds w ic (fg_pattern a) (fg_pattern b) /\ Embeds w ic (fg_pattern b) (fg_pattern a)).
+Proof. exact is_subgroup_assert_iff. Qed.
+
+(* in particular is_subgroup(a, a) always raises: the premise "is_subgroup returns on ALL pairs of the
+   list" of C07_concrete / C07_concrete_closed cannot hold for a non-empty list *)
+Theorem C07_is_subgroup_self : forall w ic a,
+  cfg_parsed a -> (forall ap, In ap (fg_anti a) -> has_syms ap) ->
+  is_subgroup (mk_mapper w ic []) a a = Bad AssertErr.
+Proof. exact is_subgroup_self. Qed.
+
+(* C07_concrete_closed without the "does not raise" premise.  Remaining premise besides distinct keys and
+   parsed, anti-pattern-free configurations: [no_mutual], no two DISTINCT members embed into each other
+   (not implied by the others: "CO" and "OC" have distinct keys and embed into each other; then
+   is_subgroup raises the AssertionError by C07_is_subgroup_assert_iff).  Conclusions: is_subgroup
+   returns on every pair of distinct members; its value is the strict embedding order; the model builds
+   the tree, and it is the Hasse diagram of that order. *)
+Theorem C07_concrete_total : forall ic (l : list fgconfig),
+  NoDup (map order_key l) ->
+  (forall c, In c l -> cfg_plain ic c) ->
+  no_mutual (Some "R"%string) ic l ->
+  (forall a b, In a l -> In b l -> a <> b ->
+     exists t, is_subgroup (mk_mapper (Some "R"%string) ic []) a b = Good t) /\
+  (forall a b, In a l -> In b l ->
+     (subb_of (Some "R"%string) ic a b = true <-> StrictlyBelow (Some "R"%string) ic (fg_pattern a) (fg_pattern b))) /\
+  exists t, build_config_tree_from_list (mk_mapper (Some "R"%string) ic []) l = Good t /\
+            hasse_of (subb_of (Some "R"%string) ic) cfg_ltb l t.
+Proof. exact configs_hasse_concrete_total. Qed.
+
+(* the three hypotheses are decidable for a concrete list ... *)
+Theorem C07_concrete_total_hyps : forall ic l,
+  concrete_total_hypsb ic l = true ->
+  NoDup (map order_key l) /\ (forall c, In c l -> cfg_plain ic c) /\ no_mutual (Some "R"%string) ic l.
+Proof. exact concrete_total_hyps_sound. Qed.
+
+(* ... and hold for the example list (non-vacuity of C07_concrete_total) *)
+Example C07_concrete_total_example : concrete_total_hypsb true ex_list = true.
+Proof. vm_compute. reflexivity. Qed.
+
 Print Assumptions C07_hasse_insert.
 Print Assumptions C07_ancestors.
 Print Assumptions C07_order_independent.
@@ -304,3 +358,8 @@ Print Assumptions C07_is_subgroup_sem_closed.
 Print Assumptions C07_concrete_closed.
 Print Assumptions C07_reference_is_embedding_order_closed.
 Print Assumptions C07_default_graphs_parsed.
+Print Assumptions C07_is_subgroup_errors.
+Print Assumptions C07_is_subgroup_assert_iff.
+Print Assumptions C07_is_subgroup_self.
+Print Assumptions C07_concrete_total.
+Print Assumptions C07_concrete_total_hyps.
